@@ -26,7 +26,7 @@ def side_coq(gs, n):
 
 def run_items(run, items, fname, rng, trials=10, tol=1e-8):
     """trace, triage with one vm_compute, prove the passing ones as theorems, search failing inputs."""
-    terms, meta = [], {}
+    terms, meta, pending = [], {}, []
     with qtrace.patched():
         qtrace.fresh_sym_backend()
         for it in items:
@@ -39,15 +39,27 @@ def run_items(run, items, fname, rng, trials=10, tol=1e-8):
                 run.case([it.key, it.meta])
                 run.sample({"obligation": it.name, **it.meta, "gates": [type(g).__name__ for g in lhs][:12]})
             except TraceError as e:
-                run.oblige(it.name, False, "untranslatable")
-                w = numeric_search(it, rng, trials, tol)
-                if w:
-                    run.find(it.key, f"{it.name}: implementation contradicts the expected operator", {**it.meta, **w})
-                else:
-                    run.find("trace:" + it.key, f"symbolic tracing failed: {e}", it.meta, concrete=False)
+                pending.append((it, "trace", e))
             except Exception as e:
-                run.oblige(it.name, False, "totality")
-                run.find("raises:" + it.key, f"{it.name} raises {type(e).__name__}: {e}", it.meta)
+                pending.append((it, "raise", e))
+    # numeric fall-backs run outside the patched context (real numpy / math)
+    for it, kind, e in pending:
+        w = numeric_search(it, rng, trials, tol=1e-6 if kind == "raise" else tol)
+        if kind == "trace":
+            if w:
+                run.refuted.append(it.name)
+                run.find(it.key, f"{it.name}: implementation contradicts the expected operator", {**it.meta, **w})
+            else:
+                run.oblige(it.name, False, "untranslatable")
+                run.find("trace:" + it.key, f"symbolic tracing failed: {e}", it.meta, concrete=False)
+        elif w:
+            run.refuted.append(it.name)
+            run.find(("raises:" if "error" in w else "") + it.key,
+                     f"{it.name}: " + (w.get("error") or "implementation contradicts the expected operator"),
+                     {**it.meta, **w})
+        else:
+            # symbolic execution left the traced fragment through a numeric routine (numerical KAK path)
+            run.not_proved.append(f"{it.name}: numeric path ({type(e).__name__}); tolerance test only, passed")
     if not terms:
         return
     res, out = run.coq_bools(fname + "_triage.v", HEADER, terms, timeout=1500)
